@@ -66,6 +66,12 @@ claimed["C11"]=dict(
    text="In the lock-invariant model every access to the ticket cache, the session table and a session's mutable fields is proved to hold the right mutex, (ticket, session key) pairs are proved to be read in one critical section, randServOrder is proved to return exactly the configured servers under keys 1..n without touching the configuration. Channel-based code, unguarded state and cross-mutex deadlocks are listed as not decided.",
    note="Trusted: the lock-invariant abstraction of concurrency; unpublished-object initialisation; channels outside the subset; math/rand.Intn returns 0 <= r < n.",
    design="4/C11")
+claimed["C13"]=dict(
+   technique="contract-based deductive verification of the flag operations (bit numbering as postconditions, quantified 'only this flag changes'), plus an exact table decision over the current source: every asn1 struct tag and field type of the 44 structs handed to the ASN.1 codec against RFC field tables; bounded executable stand-ins (labelled bounded) for the DER length helpers and the encode/decode round trips",
+   category="proof",
+   text="Proved for every bit string and flag number: IsFlagSet / SetFlag / UnsetFlag implement the RFC 4120 5.2.8 numbering and change one flag only. Decided for the current source: each codec struct field has the RFC context tag, EXPLICIT tagging, OPTIONAL-ness, string/time type and a wide-enough integer type (one obligation per field). The round-trip and length-octet clauses are covered only by bounded stand-ins (exhaustive lengths to 2^24; random values per message type), which are reported separately and never counted as proved.",
+   note="Trusted: the reflection-driven ASN.1 codec, the manual transcription of the RFC tables. Bounded: MarshalLengthBytes / GetLengthFromASN, message round trips.",
+   design="4/C13")
 hooks=subprocess.run("git -C /repo log --format='%H %s' | grep ' verif:' | awk '{print $1}'",shell=True,capture_output=True,text=True).stdout.split()
 m={"version":1,
  "setup_cmd":"./setup.sh",
